@@ -485,4 +485,88 @@ theorem banRel_run {c : Cfg} : ∀ (evs : List Event) (s : State) (g : Ghost), B
   | nil => intro s g hr; exact hr
   | cons e es ih => intro s g hr; exact ih _ _ (banRel_step e hr)
 
+/-! ### the history-only form of the assumptions implies the state-dependent one -/
+
+theorem mem_put {l : List Peer} {p q : Peer} (h : q ∈ put l p) : q = p ∨ q ∈ l := by
+  unfold put at h
+  rcases List.mem_cons.1 h with h | h
+  · exact Or.inl h
+  · exact Or.inr (List.mem_filter.1 h).1
+
+theorem all_step_subset {c : Cfg} {s : State} (e : Event) (added : List Peer) (h : ∀ q ∈ all s, q ∈ added) :
+    ∀ q ∈ all (step c s e).1, q ∈ (match e with | .add p => p :: added | _ => added) := by
+  cases e with
+  | add p =>
+    simp only [step, addPeer]
+    have hs : ∀ q ∈ all s, q ∈ p :: added := fun q hq => List.mem_cons_of_mem _ (h q hq)
+    split
+    · exact hs
+    split
+    · exact hs
+    split
+    · exact hs
+    split
+    · exact hs
+    · intro q hq
+      unfold admitPeer at hq
+      cases hk : p.kind <;> simp only [hk, all, clearBan, List.mem_append] at hq
+      · rcases hq with (hq | hq) | hq
+        · rcases mem_put hq with e | hq
+          · simp [e]
+          · exact hs q (by simp [all, hq])
+        · exact hs q (by simp [all, hq])
+        · exact hs q (by simp [all, hq])
+      · rcases hq with (hq | hq) | hq
+        · exact hs q (by simp [all, hq])
+        · rcases mem_put hq with e | hq
+          · simp [e]
+          · exact hs q (by simp [all, hq])
+        · exact hs q (by simp [all, hq])
+      · rcases hq with (hq | hq) | hq
+        · exact hs q (by simp [all, hq])
+        · exact hs q (by simp [all, hq])
+        · rcases mem_put hq with e | hq
+          · simp [e]
+          · exact hs q (by simp [all, hq])
+  | addBad => simp only [step, addBad]; split <;> exact h
+  | done p =>
+    simp only [step, donePeer]
+    split
+    · intro q hq
+      cases hk : p.kind <;> simp only [hk, all, decGroup_inb, decGroup_outb, decGroup_pers, List.mem_append] at hq
+      · rcases hq with (hq | hq) | hq
+        · exact h q (by simp [all, (mem_del.1 hq).1])
+        · exact h q (by simp [all, hq])
+        · exact h q (by simp [all, hq])
+      · rcases hq with (hq | hq) | hq
+        · exact h q (by simp [all, hq])
+        · exact h q (by simp [all, (mem_del.1 hq).1])
+        · exact h q (by simp [all, hq])
+      · rcases hq with (hq | hq) | hq
+        · exact h q (by simp [all, hq])
+        · exact h q (by simp [all, hq])
+        · exact h q (by simp [all, (mem_del.1 hq).1])
+    · exact h
+  | ban x => exact h
+  | clock dt => exact h
+  | shutdown => exact h
+
+theorem valid_of_validH {c : Cfg} : ∀ (evs : List Event) (s : State) (added : List Peer),
+    (∀ q ∈ all s, q ∈ added) → ValidH added evs → Valid c s evs := by
+  intro evs
+  induction evs with
+  | nil => intro _ _ _ _; trivial
+  | cons e es ih =>
+    intro s added hsub hv
+    have hstep := all_step_subset (c := c) e added hsub
+    cases e with
+    | add p =>
+      exact ⟨⟨fun q hq => hv.1 q (hsub q hq), hv.2.1⟩, ih _ (p :: added) hstep hv.2.2⟩
+    | done p =>
+      exact ⟨fun q hq => hv.1 q (hsub q hq), ih _ added hstep hv.2⟩
+    | addBad => exact ⟨trivial, ih _ added hstep hv⟩
+    | ban x => exact ⟨trivial, ih _ added hstep hv⟩
+    | clock dt => exact ⟨trivial, ih _ added hstep hv⟩
+    | shutdown => exact ⟨trivial, ih _ added hstep hv⟩
+
 end BHS.Proofs.Peers
